@@ -498,8 +498,12 @@ func main() {
 	}
 	if *vkit.Mode == "race" {
 		racePass(res)
+		raceReal(res)
 		res.Finish()
 		return
+	}
+	if vkit.Thorough() && vkit.ShardI() == 0 && *scenFlag == "" && *vkit.Only == "" {
+		dumpCMPKeys() // key material for the CMP body of the race pass (see racereal.go)
 	}
 	outcomes := map[string]bool{}
 	for _, sc := range scenarios() {
